@@ -117,6 +117,7 @@ class ShardAcc:
                 del lst[3:]
 
     def result(self):
+        self.crosschecks = runner.CROSSCHECKS
         return {
             'k': self.k, 'seed': self.seed, 'cases': self.cases, 'evals': self.evals,
             'nt': self.nt, 'classes': dict(self.classes), 'excluded': dict(self.excluded),
